@@ -57,6 +57,12 @@ func rebootPersistedStore(config *Config, log *zap.SugaredLogger, stats tally.Sc
 		}
 		if !ok {
 			log.With("key", key).Warn("Could not reboot blob from disk - its parent directory is there but the blob is missing")
+			// Dropping the blob includes its leftover files: otherwise the key
+			// could never be created (O_EXCL) or completed (rename onto a
+			// non-empty directory) again.
+			if err := os.RemoveAll(pather.dirPath(key, complete)); err != nil {
+				return nil, fmt.Errorf("remove leftovers of blob %s that could not be rebooted: %w", key, err)
+			}
 			continue
 		}
 		if b.complete && b.evictable {
@@ -174,7 +180,9 @@ func rebootIncompleteBlobSize(key string, pather *pather) (size uint64, ok bool,
 	}
 	blobSize, err := strconv.Atoi(string(blobSizeData))
 	if err != nil {
-		return 0, false, fmt.Errorf("blob size sidecar file is in unexpected format: %w", err)
+		// A crash between creating and writing the sidecar leaves it empty.
+		// Same fail-open as a missing sidecar: the blob is evicted.
+		return 0, false, nil
 	}
 	return uint64(blobSize), true, nil
 }
